@@ -17,6 +17,8 @@ type c04Case struct {
 	shellCfg
 	Pre  int         `json:"pre"` // newlines printed before the prompt (frames near the bottom: scrolling)
 	Plan []sess.Step `json:"plan"`
+	// the application colours the buffer (SyntaxHighlighter): colours only, the cells are the same
+	Hilite bool `json:"hilite,omitempty"`
 }
 
 var c04Prompts = []string{"> ", "$ ", "", "\x1b[1;32muser@host\x1b[0m:\x1b[34m~/src\x1b[0m$ ", "世界> ", "λ ", "line one\n> ", "a very long prompt that takes quite some room >> ", "#"}
@@ -137,6 +139,7 @@ func c04Gen(r *rand.Rand, tier string, idx int) any {
 	if r.Intn(3) == 0 {
 		c.Pre = r.Intn(c.H + 3)
 	}
+	c.Hilite = r.Intn(5) == 0
 	// plan: recall an entry, then edit / move so that consecutive frames grow and shrink
 	var plan []sess.Step
 	add := func(w, tag string) { plan = append(plan, sess.Step{W: w, Tag: tag}) }
@@ -372,6 +375,19 @@ func c04Run(env *fw.Env, raw json.RawMessage) fw.Outcome {
 		s.Sh.Prompt.Primary(func() string { return p })
 		if c.Pre > 0 {
 			fmt.Fprint(os.Stdout, strings.Repeat("\r\n", c.Pre))
+		}
+		if c.Hilite {
+			s.Sh.SyntaxHighlighter = func(line []rune) string {
+				var sb strings.Builder
+				for i, w := range strings.SplitAfter(string(line), " ") {
+					if i%2 == 0 {
+						sb.WriteString("\x1b[1;32m" + w + "\x1b[0m")
+					} else {
+						sb.WriteString("\x1b[4m" + w + "\x1b[24m")
+					}
+				}
+				return sb.String()
+			}
 		}
 	}
 	s := sess.New(env.T, env.Scratch, cfg)
